@@ -32,13 +32,17 @@ def clamp(q, n):
 
 
 class Hdr:
-    """Uninterpreted header values: value of field f at grid position / trace ordinal."""
-    def __init__(self, name, arity):
+    """Arbitrary header values: an uninterpreted function of the grid position / trace ordinal, wrapped into the range
+    of the field (SEG-Y trace header fields are 2- or 4-byte two's-complement integers)."""
+    def __init__(self, name, arity, bits=32):
         self.fn = z3.Function(name, *([z3.IntSort()] * arity + [z3.IntSort()]))
+        self.bits = bits
 
     def __call__(self, *idx):
         from symx.core import term
-        return SymInt(self.fn(*[term(i) for i in idx]))
+        raw = self.fn(*[term(i) for i in idx])
+        half = 2 ** (self.bits - 1)
+        return mk(((raw + half) % (2 * half)) - half)
 
 
 def src_cube(dims):
@@ -92,7 +96,26 @@ def trace_to_source(E, st, prov, msg):
     return arr, coords, pos
 
 
-def expect_source_voxel(E, st, prov, vox, dims, msg, zero_fill=None):
+def norm_source(inp, model=None):
+    """Cell input -> ('src', ...) if it is a source sample in any of the representations the routes produce."""
+    if not (isinstance(inp, tuple) and inp):
+        return None
+    if inp[0] == 'src':
+        if isinstance(model, WindowedModel) and len(inp) == 4:
+            return ('src', inp[1] - model.win[0], inp[2] - model.win[2], inp[3])
+        return inp
+    if model is not None:
+        w = None
+        if model.fmt == 5 and inp[0] == 'word':
+            w = inp[1]
+        elif model.fmt == 1 and inp[0] == 'native' and isinstance(inp[1], tuple) and inp[1] and inp[1][0] == 'word':
+            w = inp[1][1]
+        if w is not None and w[0] == 'segy-sample' and (w[3] == 0):
+            return model.sample_prov(w[1], w[2])
+    return None
+
+
+def expect_source_voxel(E, st, prov, vox, dims, msg, zero_fill=None, model=None):
     """C01 oracle: prov decodes the cell whose 4^d inputs are the edge-clamped source voxels around `vox`."""
     r = trace_to_source(E, st, prov, msg)
     if r is None:
@@ -105,6 +128,9 @@ def expect_source_voxel(E, st, prov, vox, dims, msg, zero_fill=None):
     want = tuple(clamp(4 * (vox[k] // 4) + abc[k], dims[k]) for k in range(nd))
     if zero_fill is not None:
         return zero_fill(E, inp, want, abc, msg) and ok
+    ninp = norm_source(inp, model)
+    if ninp is not None:
+        inp = ninp
     if not (isinstance(inp, tuple) and inp and inp[0] == 'src'):
         E.check(False, msg + ': a cell input is not a source sample (%s)' % (inp[0] if isinstance(inp, tuple) and inp else type(inp).__name__))
         return False
@@ -228,7 +254,7 @@ def check_footer(E, st, exp, geo, hdrs, label, grid_index=None):
         E.check(zero, label + ': footer padding is zero bytes (%s)' % (leaf[0],))
 
 
-def check_hash(E, exp_dims, label, is2d=False):
+def check_hash(E, exp_dims, label, is2d=False, model=None):
     """C20 oracle: the concatenation of the arrays passed to update() is the source samples in trace order."""
     hs = shenv.ctx().hash_objects
     E.reached(label + ':hash')
@@ -257,6 +283,7 @@ def check_hash(E, exp_dims, label, is2d=False):
                 rel = rel // s
             idx.append(rel)
             got = a.get(tuple(reversed(idx)))
+            got = norm_source(got, model) or got
             tr, z = k // n_s, k % n_s
             want = (tr // exp_dims[1], tr % exp_dims[1], z) if not is2d else (tr, z)
             if not (isinstance(got, tuple) and got and got[0] == 'src'):
@@ -293,8 +320,8 @@ def numpy_item(bs, rate, nb, props, opts=None):
         if hdr_fields:
             th = {}
             for f, dt in hdr_fields:
-                H[f] = Hdr('hdr_%d' % f, 2)
-                th[segyio.tracefield.TraceField(f)] = LazyArr((dims[0], dims[1]), (lambda idx, f=f: H[f](idx[0], idx[1])), 'num', dt)
+                H[f] = Hdr('hdr_%d' % f, 2, bits={'i2': 16, 'i4': 32, 'i8': 64}[dt])
+                th[int(f)] = LazyArr((dims[0], dims[1]), (lambda idx, f=f: H[f](idx[0], idx[1])), 'num', dt)
             kw['trace_headers'] = th
         ax = opts.get('axes')
         il0 = xl0 = 0
@@ -349,18 +376,27 @@ def numpy_item(bs, rate, nb, props, opts=None):
             with Quiet():
                 r = R.SgzReader(shenv.ShimFile(st))
             if 'C01' in props:
-                with Quiet():
-                    vol = r.read_volume()
-                E.check(b_and(*[a == b for a, b in zip(vol.shape, dims)]), 'numpy: read_volume shape equals the source shape')
+                E.check(b_and(r.n_ilines == dims[0], r.n_xlines == dims[1], r.n_samples == dims[2]), 'numpy: the file states the source shape')
                 v = [E.fresh(n, 0) for n in ('i', 'x', 'z')]
                 E.assume(b_and(*[v[k] < dims[k] for k in range(3)]))
+                with Quiet():      # one-voxel box of the volume (C02 ties every other read path to the same cells)
+                    vox = r.read_subvolume(v[0], v[0] + 1, v[1], v[1] + 1, v[2], v[2] + 1)
                 E.reached('numpy:probe')
-                expect_source_voxel(E, st, vol.get(tuple(v)), v, dims, 'numpy: read-back voxel')
+                expect_source_voxel(E, st, vox.get((0, 0, 0)), v, dims, 'numpy: read-back voxel')
             if 'C05' in props:
                 check_axes(E, r, dims, il0, il_step, xl0, xl_step, z0, dz, 'numpy')
             if 'C04' in props:
                 check_headers_readback(E, r, dims, stored, hdrs, 'numpy')
     return fn
+
+
+def aget(arr, k):
+    """arr[k] for a lazy or a real 1-d array and a possibly symbolic k."""
+    if isinstance(arr, LazyArr):
+        return arr.get((k,))
+    from shims.lazyarr import _pick
+    lst = [float(v) if isinstance(v, float) or 'float' in type(v).__name__ else int(v) for v in arr.tolist()]
+    return _pick(lst, k)
 
 
 def check_axes(E, r, dims, il0, il_step, xl0, xl_step, z0, dz_ms, label):
@@ -369,12 +405,12 @@ def check_axes(E, r, dims, il0, il_step, xl0, xl_step, z0, dz_ms, label):
         E.check(ax.shape[0] == n, label + ': %s has the source count' % name)
         k = E.fresh('k_' + name, 0)
         E.assume(b_and(k < n, k < ax.shape[0]))
-        E.check(ax.get((k,)) == a0 + k * stp, label + ': %s[k] = start + k*step of the source' % name)
+        E.check(aget(ax, k) == a0 + k * stp, label + ': %s[k] = start + k*step of the source' % name)
     zs = r.zslices
     E.check(zs.shape[0] == dims[2], label + ': sample axis has the source count')
     k = E.fresh('k_z', 0)
     E.assume(b_and(k < dims[2], k < zs.shape[0]))
-    E.check(zs.get((k,)) == z0 + k * dz_ms, label + ': sample axis value k = t0 + k*interval')
+    E.check(aget(zs, k) == z0 + k * dz_ms, label + ': sample axis value k = t0 + k*interval')
     E.check(r.tracecount == dims[0] * dims[1], label + ': trace count')
     E.check(bool(r.structured) is True, label + ': structured flag')
 
@@ -397,6 +433,298 @@ def check_headers_readback(E, r, dims, stored, hdrs, label):
             E.check(v == 0, label + ': unset header field reads 0')
 
 
+# ------------------------------------------------------------------------------------------------ SEG-Y routes
+def array_equal_hook(model):
+    def eq(a, b):
+        from shims.lazyarr import from_numpy
+        import numpy as _np
+        E = eng()
+        if isinstance(a, _np.ndarray):
+            a = from_numpy(a)
+        if isinstance(b, _np.ndarray):
+            b = from_numpy(b)
+        if len(a.shape) != len(b.shape):
+            return False
+        for x, y in zip(a.shape, b.shape):
+            if not (x == y):
+                return False
+        # all elements equal <=> no index at which the (normalised) provenances differ
+        q = [E.fresh('eq%d' % k, 0) for k in range(len(a.shape))]
+        for k, n in enumerate(a.shape):
+            E.assume(q[k] < n)
+        pa, pb = norm_source(a.get(tuple(q)), model), norm_source(b.get(tuple(q)), model)
+        if pa is None or pb is None or len(pa) != len(pb):
+            return False
+        same = b_and(*[x == y for x, y in zip(pa[1:], pb[1:])])
+        return implied(same)
+    return eq
+
+
+def segy_item(kind, bs, rate, nb, props, opts=None):
+    """kind: 'regular' | '2d' | 'irregular'."""
+    opts = opts or {}
+    from shims import segy as shsegy
+
+    def fn():
+        E = eng()
+        mm, fs = setup_path(opts.get('version', '0.2.5'))
+        C = mm['conversion']
+        Filetype = mm['seismicfile'].Filetype
+        cap = opts.get('dimcap', 1)
+        fmt = opts.get('fmt', 1)
+        ext = opts.get('ext', 0)
+        detection = opts.get('detection', 'heuristic')
+        il0, xl0, il_step, xl_step = opts.get('il0', 10), opts.get('xl0', 20), opts.get('il_step', 1), opts.get('xl_step', 1)
+        if opts.get('axes') == 'sym':
+            il0, xl0 = E.fresh('il0', -2 ** 31, 2 ** 31 - 1), E.fresh('xl0', -2 ** 31, 2 ** 31 - 1)
+        varying, H = {}, {}
+        for f in opts.get('varying', ()):
+            H[f] = Hdr('hdr_%d' % f, 1, bits=8 * shsegy.field_width(f))
+            varying[f] = (lambda t, f=f: H[f](t))
+        consts = dict(opts.get('consts', {}))
+        t0_ms, dt_ms = opts.get('t0_ms', 0), opts.get('dt_ms', 4)
+        if opts.get('samples') == 'sym':
+            t0_ms = E.fresh('t0_ms', -32768, 32767)
+            dt_ms = E.fresh('dt_ms', 1, 65)
+        if kind == '2d':
+            ntr = E.fresh('n_tr', max(2, (nb[0] - 1) * bs[1] + 1), min(nb[0] * bs[1], max(2, (nb[0] - 1) * bs[1]) + cap + 1))
+            n_s = E.fresh('n_s', max(2, (nb[1] - 1) * bs[2] + 1), nb[1] * bs[2])
+            ntr = int(ntr)      # the converters build range() objects over the traces: enumerated within the stated cap
+            model = shsegy.SegyModel('2d', n_s, fmt=fmt, ext=ext, tracecount=ntr, varying=varying, consts=consts,
+                                     t0_ms=t0_ms, dt_ms=dt_ms)
+            dims = (ntr, n_s)
+        else:
+            n_il = E.fresh('n_il', max(2, (nb[0] - 1) * bs[0] + 1), min(nb[0] * bs[0], max(2, (nb[0] - 1) * bs[0]) + cap))
+            n_xl = E.fresh('n_xl', max(2, (nb[1] - 1) * bs[1] + 1), min(nb[1] * bs[1], max(2, (nb[1] - 1) * bs[1]) + cap))
+            n_s = E.fresh('n_s', max(2, (nb[2] - 1) * bs[2] + 1), nb[2] * bs[2])
+            if opts.get('ns_cap') is not None:
+                E.assume(n_s <= max(2, (nb[2] - 1) * bs[2]) + opts['ns_cap'])
+            if opts.get('ilxl'):
+                E.assume(b_and(n_il == opts['ilxl'][0], n_xl == opts['ilxl'][1]))
+            n_il, n_xl = int(n_il), int(n_xl)      # Geometry3d builds range() objects over both line axes: enumerated within the cap
+            if opts.get('reduce_iops'):
+                n_s = int(n_s)      # byte offsets of the reduced-I/O reader are products with the trace length: enumerated (ns_cap)
+            if opts.get('axes') == 'sym':
+                for a0, stp, n in ((il0, il_step, n_il), (xl0, xl_step, n_xl)):
+                    last = a0 + (n - 1) * stp
+                    E.assume(b_and(last >= -2 ** 31, last <= 2 ** 31 - 1))
+            model = shsegy.SegyModel(kind, n_s, fmt=fmt, ext=ext, n_il=n_il, n_xl=n_xl, il0=il0, il_step=il_step, xl0=xl0, xl_step=xl_step,
+                                     varying=varying, consts=consts, t0_ms=t0_ms, dt_ms=dt_ms)
+            dims = (n_il, n_xl, n_s)
+        if H:
+            ntr_c = model.tracecount if not is_sym(model.tracecount) else None
+
+            def watch(zm, H=H, ntr_c=ntr_c):
+                out = {}
+                for f, h in H.items():
+                    half = 2 ** (h.bits - 1)
+                    for t in range(ntr_c or 0):
+                        raw = zm.eval(h.fn(z3.IntVal(t)), model_completion=True).as_long()
+                        out['hv_%d_%d' % (f, t)] = ((raw + half) % (2 * half)) - half
+                return out
+            E.watches.append(watch)
+        shsegy.install_segy(mm, fs, model, Filetype)
+        lazyarr.ARRAY_EQUAL_HOOK[0] = array_equal_hook(model)
+        lazyarr.NP_ALL_HOOK[0] = np_all_hook
+        win = opts.get('window')
+        kw = {}
+        if win == 'sym':
+            w = [E.fresh(n) for n in ('min_il', 'max_il', 'min_xl', 'max_xl')]
+            E.assume(b_and(w[0] >= 0, w[0] < w[1], w[1] <= dims[0], w[2] >= 0, w[2] < w[3], w[3] <= dims[1]))
+            fam = opts.get('win_family')
+            if fam == 'il-from-zero':
+                E.assume(b_and(w[0] == 0, w[2] == 0, w[3] == dims[1]))
+            elif fam == 'il-interior':
+                E.assume(b_and(w[0] >= 1, w[2] == 0, w[3] == dims[1]))
+            elif fam == 'xl-from-zero':
+                E.assume(b_and(w[0] == 0, w[1] == dims[0], w[2] == 0))
+            elif fam == 'xl-interior':
+                E.assume(b_and(w[0] == 0, w[1] == dims[0], w[2] >= 1))
+            elif fam == 'both-interior':
+                E.assume(b_and(w[0] >= 1, w[2] >= 1, w[1] < dims[0], w[3] < dims[1]))
+            kw = dict(min_il=w[0], max_il=w[1], min_xl=w[2], max_xl=w[3])
+        with Quiet():
+            conv = C.SegyConverter(model.name, **kw)
+            conv.run('out.sgz', bits_per_voxel=opts.get('bpv_in', rate), blockshape=opts.get('bs_in', bs),
+                     reduce_iops=bool(opts.get('reduce_iops')), header_detection=detection)
+        E.reached('segy:converted')
+        st = fs.stores['out.sgz']
+        return finish_segy(E, mm, fs, st, model, dims, bs, rate, props, opts, kw, H)
+    return fn
+
+
+def np_all_hook(a):
+    """np.all(boolean lazy array): True iff every element is implied true (decided with one symbolic index)."""
+    if a.ndim != 1:
+        raise Unsupported("np.all on an n-d lazy array")
+    n = a.shape[0]
+    n = int(n) if is_sym(n) else n
+    for i in range(n):
+        v = a.get((i,))
+        if isinstance(v, tuple):
+            raise Unsupported("np.all over opaque values")
+        if not v:          # a symbolic element forks: exact semantics of all()
+            return False
+    return True
+
+
+def _all_fork(E, v):
+    # np.all is a universal statement; it is True on this path iff the element predicate is implied for every index
+    return implied(v)
+
+
+def finish_segy(E, mm, fs, st, model, dims, bs, rate, props, opts, window, H):
+    is2d = model.kind == '2d'
+    detection = opts.get('detection', 'heuristic')
+    label = 'segy' + ('-2d' if is2d else '')
+    # which fields are stored is decided by the real classification code; read it back from the written table
+    stored = []
+    for i, f in enumerate(spec.TRACE_FIELDS):
+        row = [read_field(st, 980 + 12 * i + 4 * j, '<i') for j in range(3)]
+        if implied(b_and(row[1] == 0, row[2] == f)):
+            stored.append(f)
+    if 'C01' in props or 'C09' in props:
+        R = mm['read']
+        with Quiet():
+            r = R.SgzReader(shenv.ShimFile(st))
+        if is2d:
+            E.check(b_and(r.tracecount == dims[0], r.n_samples == dims[1]), label + ': the file states the source shape')
+            v = [E.fresh(n, 0) for n in ('t', 'z')]
+            E.assume(b_and(v[0] < dims[0], v[1] < dims[1]))
+            with Quiet():
+                sec = r.read_subplane(v[0], v[0] + 1, v[1], v[1] + 1)
+            E.reached(label + ':probe')
+            expect_source_voxel(E, st, sec.get((0, 0)), v, dims, label + ': read-back sample', model=model)
+        else:
+            E.check(b_and(r.n_ilines == dims[0], r.n_xlines == dims[1], r.n_samples == dims[2]), label + ': the file states the source shape')
+            v = [E.fresh(n, 0) for n in ('i', 'x', 'z')]
+            E.assume(b_and(*[v[k] < dims[k] for k in range(3)]))
+            with Quiet():
+                vox = r.read_subvolume(v[0], v[0] + 1, v[1], v[1] + 1, v[2], v[2] + 1)
+            E.reached(label + ':probe')
+            expect_source_voxel(E, st, vox.get((0, 0, 0)), v, dims, label + ': read-back voxel', model=model)
+    if 'C20' in props:
+        check_hash(E, dims, label, is2d=is2d, model=model)
+    win = None
+    if window:
+        win = (window['min_il'], window['max_il'], window['min_xl'], window['max_xl'])
+    if 'C04' in props or 'C09' in props or 'C11' in props:
+        check_segy_headers(E, mm, st, model, dims, detection, label, H, win)
+    if 'C05' in props:
+        R = mm['read']
+        with Quiet():
+            r = R.SgzReader(shenv.ShimFile(st))
+        if is2d:
+            zs = r.zslices
+            E.reached(label + ':axes')
+            E.check(zs.shape[0] == dims[1], label + ': sample axis has the source count')
+            k = E.fresh('k_z', 0)
+            E.assume(b_and(k < dims[1], k < zs.shape[0]))
+            E.check(aget(zs, k) == model.t0_ms + k * model.dt_ms, label + ': sample axis value k = t0 + k*interval')
+            E.check(r.tracecount == dims[0], label + ': trace count')
+        else:
+            check_axes(E, r, dims, model.il0, model.il_step, model.xl0, model.xl_step, model.t0_ms, model.dt_ms, label)
+    if 'C11' in props:
+        check_window(E, mm, st, model, dims, bs, rate, win, label, H)
+    return stored
+
+
+def source_trace_of(model, dims, win, t):
+    """Source trace ordinal of output grid trace t (window: output grid is the window)."""
+    if model.kind == '2d' or win is None:
+        return t
+    wx = win[3] - win[2]
+    i, x = t // wx, t % wx
+    return (win[0] + i) * dims[1] + (win[2] + x)
+
+
+def check_segy_headers(E, mm, st, model, dims, detection, label, H, win=None):
+    """C04: every one of the 89 fields of every trace reads back as in the source; file headers byte-identical."""
+    import segyio
+    R = mm['read']
+    is2d = model.kind == '2d'
+    n_out = dims[0] if is2d else ((win[1] - win[0]) * (win[3] - win[2]) if win else dims[0] * dims[1])
+    if detection == 'heuristic':
+        # the property's precondition for the heuristic mode: every field is constant or differs between the first and
+        # the last trace, and no two differing fields coincide on both
+        last = model.tracecount - 1
+        fs = sorted(H)
+        for f in fs:
+            E.assume(b_not(H[f](0) == H[f](last)))
+        geo = [] if is2d else [189, 193]
+        allv = [(f, model.header_value(0, f), model.header_value(last, f)) for f in fs + geo]
+        for a in range(len(allv)):
+            for b in range(a):
+                E.assume(b_not(b_and(allv[a][1] == allv[b][1], allv[a][2] == allv[b][2])))
+    with Quiet():
+        r = R.SgzReader(shenv.ShimFile(st))
+    t = E.fresh('hdr_trace', 0)
+    E.assume(t < n_out)
+    E.reached(label + ':headers')
+    with Quiet():
+        h = r.gen_trace_header(t)
+    src_t = source_trace_of(model, dims, win, t)
+    for f in spec.TRACE_FIELDS:
+        v = h[segyio.tracefield.TraceField(f)]
+        want = 0 if detection == 'strip' else model.header_value(src_t, f)
+        if isinstance(v, tuple):
+            E.check(False, label + ': header field %d is not an integer (%s)' % (f, v[0]))
+        else:
+            E.check(v == want, label + ': header field %d of every trace equals the source (%s detection)' % (f, detection))
+    # the 3600-byte SEG-Y file header is copied verbatim
+    q = E.fresh('fh_byte', 0, 3599)
+    leaf = st.content.resolve(4096 + q, 1)
+    ok = isinstance(leaf[0], tuple) and leaf[0] == ('segy-filehdr', id(model))
+    E.check(b_and(ok, leaf[1] == q) if ok else False, label + ': bytes 4096..7695 are the SEG-Y textual + binary file header')
+
+
+def check_window(E, mm, st, model, dims, bs, rate, win, label, H):
+    """C11: the windowed conversion equals the conversion of the windowed cube."""
+    R = mm['read']
+    wd = (win[1] - win[0], win[3] - win[2], dims[2])
+    with Quiet():
+        r = R.SgzReader(shenv.ShimFile(st))
+    E.reached(label + ':window')
+    E.check(b_and(r.n_ilines == wd[0], r.n_xlines == wd[1], r.n_samples == wd[2]), label + ': windowed file has the shape of the window')
+    E.check(r.tracecount == wd[0] * wd[1], label + ': trace count equals the window')
+    # axes: those of the windowed traces
+    for name, ax, n, a0, stp, off in (('ilines', r.ilines, wd[0], model.il0, model.il_step, win[0]), ('xlines', r.xlines, wd[1], model.xl0, model.xl_step, win[2])):
+        k = E.fresh('k_' + name, 0)
+        E.assume(b_and(k < n, k < ax.shape[0]))
+        E.check(b_and(ax.shape[0] == n, aget(ax, k) == a0 + (off + k) * stp), label + ': %s are the line numbers of the windowed traces' % name)
+    # samples: C01 for the sub-cube
+    v = [E.fresh(n, 0) for n in ('i', 'x', 'z')]
+    E.assume(b_and(*[v[k] < wd[k] for k in range(3)]))
+    E.assume(b_and(v[0] < r.n_ilines, v[1] < r.n_xlines, v[2] < r.n_samples))
+    with Quiet():
+        vox = r.read_subvolume(v[0], v[0] + 1, v[1], v[1] + 1, v[2], v[2] + 1)
+    sub = WindowedModel(model, win)
+    expect_source_voxel(E, st, vox.get((0, 0, 0)), v, wd, label + ': voxel of the windowed file', model=sub)
+    # container for the window's trace count
+    stored = []
+    for i, f in enumerate(spec.TRACE_FIELDS):
+        row = [read_field(st, 980 + 12 * i + 4 * j, '<i') for j in range(3)]
+        if implied(b_and(row[1] == 0, row[2] == f)):
+            stored.append(f)
+    stride = spec.pad_to(4 * wd[0] * wd[1], 512)
+    pad = tuple(spec.pad_to(n, b) for n, b in zip(wd, bs))
+    num, den = (rate).as_integer_ratio() if isinstance(rate, float) else (rate, 1)
+    data_bytes = (pad[0] * pad[1] * pad[2] * num) // (8 * den)
+    E.check(read_field(st, 60, '<I') == 4 * wd[0] * wd[1], label + ': header-array length field is 4 bytes per window trace')
+    E.check(st.content.length == 8192 + data_bytes + stride * len(stored), label + ': file length is that of the windowed cube')
+
+
+class WindowedModel:
+    """View of the source restricted to the window: sample provenance re-indexed to window coordinates."""
+    def __init__(self, model, win):
+        self.m, self.win = model, win
+        self.fmt = model.fmt
+
+    def sample_prov(self, t, k):
+        p = self.m.sample_prov(t, k)
+        return ('src', p[1] - self.win[0], p[2] - self.win[2], p[3])
+
+
 # ------------------------------------------------------------------------------------------------ items
 def items_for(prop, tier):
     from .runner import Item
@@ -404,7 +732,7 @@ def items_for(prop, tier):
     quick = tier == 'quick'
     lays = [((4, 4, 256), 8), ((4, 4, 1024), 2), ((4, 4, 8192), 0.25), ((64, 64, 4), 2), ((8, 8, 64), 8), ((4, 8, 128), 8),
             ((16, 16, 16), 8), ((8, 4, 128), 8)] if quick else valid_layouts_3d()
-    for bs, rate in lays:
+    for bs, rate in (lays if prop in ('C01', 'C03', 'C20') else []):
         nbs = [(2, 2, 2)] if quick else [(1, 1, 1), (2, 2, 2), (3, 2, 1), (1, 3, 2)]
         if quick and not (bs[0] == 4 and bs[1] == 4):
             # general layouts put one block per compress call: two blocks along two axes, rotating which axis has one
@@ -422,6 +750,82 @@ def items_for(prop, tier):
                 it = Item(desc, (lambda bs=bs, rate=rate, nb=nb, opts=opts: numpy_item(bs, rate, nb, {prop}, opts)),
                           timeout_s=200 if quick else 1200, solver_ms=10000 if quick else 60000)
                 it.meta = dict(kind='numpy', bs=list(bs), rate=rate, nb=list(nb), opts={k: v for k, v in opts.items()}, prop=prop)
+                items.append(it)
+    if prop in ('C01', 'C20', 'C09'):
+        from .runner import Item as _I
+        segy_cfgs = []
+        if prop in ('C01', 'C20'):
+            lays3 = [((4, 4, 256), 8, (2, 2, 2)), ((8, 8, 64), 8, (2, 1, 2)), ((4, 8, 128), 8, (1, 2, 2)), ((64, 64, 4), 2, (2, 1, 1))] if quick else \
+                [((4, 4, 256), 8, (2, 2, 2)), ((4, 4, 1024), 2, (3, 2, 1)), ((8, 8, 64), 8, (2, 1, 2)), ((8, 8, 64), 8, (1, 2, 2)), ((4, 8, 128), 8, (1, 2, 2)),
+                 ((4, 8, 128), 8, (2, 1, 2)), ((64, 64, 4), 2, (2, 1, 1)), ((16, 16, 16), 8, (2, 2, 2)), ((4, 4, 8192), 0.25, (2, 2, 2))]
+            for bs, rate, nb in lays3:
+                for o in (dict(fmt=1), dict(fmt=5), dict(fmt=1, reduce_iops=True, ns_cap=2), dict(fmt=5, reduce_iops=True, ns_cap=2),
+                          dict(fmt=1, ext=1), dict(fmt=1, ext=1, reduce_iops=True, ns_cap=2)):
+                    if quick and bs != (4, 4, 256) and (o.get('ext') or o.get('fmt') == 5):
+                        continue
+                    segy_cfgs.append(('regular', bs, rate, nb, o))
+        lays2 = [((1, 16, 256), 8, (3, 2)), ((1, 4, 1024), 8, (3, 2)), ((1, 64, 64), 8, (2, 2))] if quick else \
+            [(l[0], l[1], nb) for l in valid_layouts_2d() for nb in ((2, 2), (3, 1), (1, 3)) if nb[1] * l[0][2] <= 2 ** 15]
+        for bs, rate, nb in lays2:
+            for o in (dict(fmt=1), dict(fmt=5)) if not quick else (dict(fmt=1),):
+                segy_cfgs.append(('2d', bs, rate, nb, o))
+        for kind, bs, rate, nb, o in segy_cfgs:
+            desc = 'segy-%s|%s|bs=%s|rate=%s|nb=%s|%s' % (kind, prop, 'x'.join(map(str, bs)), rate, 'x'.join(map(str, nb)),
+                                                        ','.join('%s=%s' % kv for kv in sorted(o.items())))
+            it = _I(desc, (lambda kind=kind, bs=bs, rate=rate, nb=nb, o=o: segy_item(kind, bs, rate, nb, {prop}, o)),
+                    timeout_s=200 if quick else 1200, solver_ms=10000 if quick else 60000)
+            it.meta = dict(kind='segy-' + kind, bs=list(bs), rate=rate, nb=list(nb), opts=dict(o), prop=prop)
+            items.append(it)
+    if prop in ('C04', 'C05', 'C11'):
+        from .runner import Item as _I
+        cfgs = []
+        if prop == 'C04':
+            for det in ('heuristic', 'thorough', 'exhaustive', 'strip'):
+                small = det in ('thorough', 'exhaustive')
+                cfgs.append(('regular', (4, 4, 256), 8, (1, 1, 1) if small else (2, 2, 1), dict(detection=det, varying=(73,), consts={37: 5}, dimcap=1 if small else 2)))
+                cfgs.append(('2d', (1, 16, 256), 8, (1, 1) if small else (2, 1), dict(detection=det, varying=(73, 21), consts={37: 5}, dimcap=1)))
+            # trace counts whose 4x length is / is not a multiple of 512, two stored arrays beyond the geometry ones
+            for ilxl in ((8, 16), (16, 16), (9, 15)):
+                cfgs.append(('regular', (8, 8, 64), 8, (2, 2, 1), dict(detection='heuristic', varying=(73, 21), ilxl=ilxl, dimcap=8)))
+            if not quick:
+                cfgs.append(('regular', (4, 4, 256), 8, (2, 2, 1), dict(detection='heuristic', varying=(73, 21, 181), consts={37: 5, 29: -3}, dimcap=2, reduce_iops=True, ns_cap=1)))
+        if prop == 'C05':
+            for steps in ((1, 1), (2, 3), (-1, 1), (1, -2)) if not quick else ((2, 3), (-1, 1)):
+                cfgs.append(('regular', (4, 4, 256), 8, (2, 2, 1), dict(axes='sym', il_step=steps[0], xl_step=steps[1], dimcap=1)))
+            cfgs.append(('regular', (4, 4, 256), 8, (1, 1, 2), dict(samples='sym', dimcap=1)))
+            cfgs.append(('2d', (1, 16, 256), 8, (1, 2), dict(samples='sym', dimcap=1)))
+        if prop == 'C11':
+            for fam in ('il-from-zero', 'il-interior', 'xl-from-zero', 'xl-interior', 'both-interior'):
+                for ri in (False, True):
+                    if quick and ri and fam not in ('il-interior', 'both-interior'):
+                        continue
+                    cfgs.append(('regular', (4, 4, 256), 8, (2, 2, 1), dict(window='sym', win_family=fam, varying=(73,), dimcap=1 if quick else 2, reduce_iops=ri,
+                                                                            **(dict(ns_cap=1) if ri else {}))))
+            if not quick:
+                cfgs.append(('regular', (8, 8, 64), 8, (2, 2, 1), dict(window='sym', varying=(73,), dimcap=1)))
+                cfgs.append(('regular', (4, 4, 256), 8, (3, 2, 1), dict(window='sym', varying=(73,), dimcap=1, detection='thorough')))
+        for kind, bs, rate, nb, o in cfgs:
+            desc = 'segy-%s|%s|bs=%s|rate=%s|nb=%s|%s' % (kind, prop, 'x'.join(map(str, bs)), rate, 'x'.join(map(str, nb)),
+                                                        ','.join('%s=%s' % kv for kv in sorted(o.items())))
+            it = _I(desc, (lambda kind=kind, bs=bs, rate=rate, nb=nb, o=o: segy_item(kind, bs, rate, nb, {prop}, o)),
+                    timeout_s=250 if quick else 1500, solver_ms=10000 if quick else 60000)
+            it.meta = dict(kind='segy-' + kind, bs=list(bs), rate=rate, nb=list(nb), opts=dict(o), prop=prop)
+            items.append(it)
+        if prop in ('C04', 'C05'):
+            # NumPy route: header arrays of any integer dtype / symbolic axes
+            ncfgs = []
+            if prop == 'C04':
+                for dt in ('i2', 'i4', 'i8'):
+                    ncfgs.append(dict(headers=((73, dt), (21, 'i4'))))
+            else:
+                for steps in ((2, 3), (-1, 1)):
+                    ncfgs.append(dict(axes='sym', il_step=steps[0], xl_step=steps[1]))
+                ncfgs.append(dict(samples='sym'))
+            for o in ncfgs:
+                desc = 'numpy|%s|bs=4x4x256|rate=8|nb=2x2x1|%s' % (prop, ','.join('%s=%s' % kv for kv in sorted(o.items())))
+                it = _I(desc, (lambda o=o: numpy_item((4, 4, 256), 8, (2, 2, 1), {prop}, o)), timeout_s=250 if quick else 1200,
+                        solver_ms=10000 if quick else 60000)
+                it.meta = dict(kind='numpy', bs=[4, 4, 256], rate=8, nb=[2, 2, 1], opts=dict(o), prop=prop)
                 items.append(it)
     if prop == 'C03':
         # the distribution version strings setuptools_scm can emit for this project (incl. the one installed here)
